@@ -194,3 +194,19 @@ Lemma wide_rev_context_refuted :
   /\ model_scan d_wrc m_wrc 1000 = [(2, 4)]
   /\ kf_wide_rev_context d_wrc m_wrc = true.
 Proof. vm_compute. repeat split. Qed.
+
+(* ---- length by arrival: { ( cbaabbad | cbaabb | cbaa ) } on "cbaabbad" *)
+Definition w_len : list N := [99;98;97;97;98;98;97;100].
+Definition h_len : hir :=
+  HConcat [HGroup (HAlt [HConcat (map HLit w_len); HConcat (map HLit (firstn 6 w_len)); HConcat (map HLit (firstn 4 w_len))])].
+Definition d_len : sdesc :=
+  {| s_lits := [w_len; firstn 6 w_len; firstn 4 w_len]; s_atoms := [(4, 0); (0, 2); (0, 0)]; s_kind := KLiterals;
+     s_mods := md_hex; s_hir := h_len; s_pre := None; s_post := None |}.
+
+(* member lengths at 0 are 8 (leftmost-first, longest), 6, 4 (shortest); 6 is reported *)
+Lemma length_by_arrival_refuted :
+  Lens (flags_of md_hex) w_len h_len 0 = [8; 6; 4]
+  /\ model_scan d_len w_len 1000 = [(0, 6)]
+  /\ len_choice_ok [8; 6; 4] 6 = false
+  /\ kf_len_arrival d_len (Lens (flags_of md_hex) w_len h_len) w_len = true.
+Proof. vm_compute. repeat split. Qed.
